@@ -216,14 +216,20 @@ def main(argv):
     # inconclusive conditions
     reasons = list(m["problems"])
     floors = getattr(mod, "FLOORS", [])
+    silent_probes = []
     for fl in floors:
         if m["counters"].get(fl, 0) <= 0 and m["classes"].get(fl, 0) <= 0:
+            if fl.startswith("probe-"):
+                # the floor of an INNER monitor (contracts evaluated on the values real calls push through an inner function): when the
+                # implementation no longer routes its work through that function the way the probe expects, the inner contracts see nothing.
+                # Reported, not fatal: the boundary oracles, whose floors are the other entries, still decide.
+                silent_probes.append(fl)
+                continue
             # a floor tied to an internal hook point (an inner function, a private attribute) that a behaviour-preserving
             # refactoring removed is reported as not applicable by the module, and does not make the run inconclusive
             if m["counters"].get(fl + ":not-applicable", 0) > 0:
                 continue
             reasons.append("floor never reached: %s" % fl)
-    silent_probes = []
     for name in getattr(mod, "PROBE_FLOORS", []):
         short = name
         if short in [a.split(":")[1] for a in m["probe_absent"]]:
